@@ -50,7 +50,7 @@ FUNCS = [
     ("ubxmessage.py", "UBXMessage._do_attributes"), ("ubxmessage.py", "UBXMessage._get_dict"),
     ("ubxmessage.py", "UBXMessage.identity"), ("ubxmessage.py", "UBXMessage.__init__"),
     ("ubxmessage.py", "UBXMessage.__setattr__"), ("ubxmessage.py", "UBXMessage.__delattr__"),
-    ("ubxmessage.py", "UBXMessage.__repr__"),
+    ("ubxmessage.py", "UBXMessage.__repr__"), ("ubxmessage.py", "UBXMessage.__str__"),
 ]
 
 
@@ -64,6 +64,10 @@ def enc(s: str) -> int:
 
 # functions whose f-strings are evaluated part by part (see `Tr.E`, JoinedStr)
 EVAL_FSTRINGS = {"cfgkey2name", "UBXMessage.__repr__"}
+# functions in which `a + b` / `x += b` with an operand that is *syntactically* text (a string literal, an f-string, a
+# `str(…)` call, or such a concatenation itself) is handed to the host as `__concat__(a, b)`: the text built is not
+# inspected, and what the other operand must be for `+` not to raise is the host's to say
+TEXT_CONCAT = {"UBXMessage.__str__"}
 
 
 class Tr:
@@ -75,6 +79,7 @@ class Tr:
         self.value_lists = set(value_lists)
         self.assumed_total = []
         self.eval_fstrings = False
+        self.text_concat = False
 
     def nm(self, s):
         self.names[s] = enc(s)
@@ -110,6 +115,18 @@ class Tr:
                 parts = parts[1:]
             return ".".join(parts)
         return None
+
+    def is_text(self, n):
+        """syntactically a text: literal, f-string, `str(…)`, or a `+` with such an operand"""
+        if isinstance(n, ast.Constant):
+            return isinstance(n.value, str)
+        if isinstance(n, ast.JoinedStr):
+            return True
+        if isinstance(n, ast.Call) and isinstance(n.func, ast.Name) and n.func.id == "str" and n.func.id not in self.locals:
+            return True
+        if isinstance(n, ast.BinOp) and isinstance(n.op, ast.Add):
+            return self.is_text(n.left) or self.is_text(n.right)
+        return False
 
     def lst(self, xs):
         return "[" + ", ".join(xs) + "]"
@@ -167,6 +184,8 @@ class Tr:
                    ast.BitAnd: "band", ast.BitOr: "bor", ast.BitXor: "bxor", ast.LShift: "shl", ast.RShift: "shr"}
             if type(n.op) not in ops:
                 self.bad(n, "operator")
+            if self.text_concat and isinstance(n.op, ast.Add) and (self.is_text(n.left) or self.is_text(n.right)):
+                return f"(.call {self.nm('__concat__')} [{self.E(n.left)}, {self.E(n.right)}] [] [])"
             return f"(.bin .{ops[type(n.op)]} {self.E(n.left)} {self.E(n.right)})"
         if isinstance(n, ast.UnaryOp):
             if isinstance(n.op, ast.Invert):
@@ -189,7 +208,11 @@ class Tr:
             if any(type(o) not in ops for o in n.ops):
                 self.bad(n, "comparison")
             if len(n.ops) == 1:
-                return f"(.cmp .{ops[type(n.ops[0])]} {self.E(n.left)} {self.E(n.comparators[0])})"
+                c = n.comparators[0]
+                if isinstance(n.ops[0], (ast.In, ast.NotIn)) and isinstance(c, ast.List):
+                    # `x in [a, b]`: a list literal that is only searched — carried as a tuple
+                    return f"(.cmp .{ops[type(n.ops[0])]} {self.E(n.left)} (.tuple {self.lst([self.E(e) for e in c.elts])}))"
+                return f"(.cmp .{ops[type(n.ops[0])]} {self.E(n.left)} {self.E(c)})"
             if len(n.ops) == 2:
                 return (f"(.cmp2 .{ops[type(n.ops[0])]} {self.E(n.left)} {self.E(n.comparators[0])} "
                         f".{ops[type(n.ops[1])]} {self.E(n.comparators[1])})")
@@ -339,6 +362,9 @@ class Tr:
                     # `name += f"_{i:02d}"`: appending an index suffix to a name, as a call the host interprets
                     t = self.nm(n.target.id)
                     return f"(.assign {t} (.call {self.nm('__addsfx__')} [(.var {t}), {self.E(x)}] [] []))"
+                if self.text_concat and isinstance(n.op, ast.Add) and self.is_text(n.value):
+                    t = self.nm(n.target.id)
+                    return f"(.assign {t} (.call {self.nm('__concat__')} [(.var {t}), {self.E(n.value)}] [] []))"
                 return f"(.aug {self.nm(n.target.id)} .{ops[type(n.op)]} {self.E(n.value)})"
             if isinstance(n.target, ast.Attribute):
                 obj = self.E(n.target.value)
@@ -574,6 +600,7 @@ def main():
             continue
         tr = Tr(list(allp) + sorted(stored), a.kwarg.arg if a.kwarg else None, vl)
         tr.eval_fstrings = qual in EVAL_FSTRINGS
+        tr.text_concat = qual in TEXT_CONCAT
         try:
             free = sorted({x.id for x in ast.walk(node) if isinstance(x, ast.Name) and isinstance(x.ctx, ast.Load)}
                           - set(allp) - stored - {"self"})
